@@ -382,7 +382,26 @@ fn a_iph6_lax(c: &Ctx, b: &[u8], _: u16) -> Res {
     }
 }
 
+fn sweep_res(c: &Ctx, which: &str, b: &[u8]) -> Res {
+    let (digest, n) = crate::sweep::sweep(c, which, b);
+    let mut r = Res::new();
+    r.layers.push(json!({"k": "sweep", "off": 0, "hlen": n, "f": [digest], "p": no_pay()}));
+    r
+}
+fn a_sweep_link(c: &Ctx, b: &[u8], _: u16) -> Res {
+    sweep_res(c, "link", b)
+}
+fn a_sweep_net(c: &Ctx, b: &[u8], _: u16) -> Res {
+    sweep_res(c, "net", b)
+}
+fn a_sweep_transport(c: &Ctx, b: &[u8], _: u16) -> Res {
+    sweep_res(c, "transport", b)
+}
+
 pub const APIS: &[Api] = &[
+    Api { name: "sweep:link", m: "sweep", fam: "sweep", entry: "sweep", upto: "all", f: a_sweep_link },
+    Api { name: "sweep:net", m: "sweep", fam: "sweep", entry: "sweep", upto: "all", f: a_sweep_net },
+    Api { name: "sweep:transport", m: "sweep", fam: "sweep", entry: "sweep", upto: "all", f: a_sweep_transport },
     Api { name: "SlicedPacket::from_ethernet", m: "strict", fam: "slice", entry: "eth", upto: "all", f: a_sliced_eth },
     Api { name: "LaxSlicedPacket::from_ethernet", m: "lax", fam: "slice", entry: "eth", upto: "all", f: a_lax_sliced_eth },
     Api { name: "PacketHeaders::from_ethernet_slice", m: "strict", fam: "struct", entry: "eth", upto: "all", f: a_headers_eth },
